@@ -490,7 +490,10 @@ class Body:
             return ('arg', l, self.arg_names.get(l))
         if depth > 400:
             return ('top', 'depth')
-        if self._shallow and (depth > 0 or self._shallow == 'all') and l in self.names:
+        if self._shallow == 'mut':
+            if l in self.names and len(alld) > 1:
+                return ('var', l, self.names[l])
+        elif self._shallow and (depth > 0 or self._shallow == 'all') and l in self.names:
             return ('var', l, self.names[l])
         if not alld:
             if l == 0:
@@ -630,6 +633,14 @@ class Body:
         self._shallow = True
         try:
             return self.expr(operand, 1)
+        finally:
+            self._shallow = False
+
+    def mexpr(self, operand):
+        """expression that stops at *mutable* user variables (rendered $name): stable text for loop-carried indices"""
+        self._shallow = 'mut'
+        try:
+            return self.expr(operand)
         finally:
             self._shallow = False
 
@@ -797,6 +808,39 @@ def subst_args(e, args):
         newsub = tuple(args) if old is None else tuple(subst_args(a, args) for a in old)
         return ('phi', e[1], [subst_args(a, args) for a in e[2]], e[3], e[4], e[5] if len(e) > 5 else None, newsub)
     return e
+
+
+def rebuild(e, f):
+    """post-order rewrite of an expression tree: f(node with rebuilt children) -> node"""
+    k = e[0]
+    r = lambda x: rebuild(x, f)
+    if k in ('const', 'fnitem', 'top', 'undef', 'loop', 'var', 'arg'):
+        n = e
+    elif k in ('ref', 'deref', 'discr', 'repeat', 'proj?'):
+        n = (k, r(e[1]))
+    elif k == 'field':
+        n = ('field', r(e[1])) + tuple(e[2:])
+    elif k == 'downcast':
+        n = ('downcast', r(e[1]), e[2])
+    elif k == 'index':
+        n = ('index', r(e[1]), r(e[2]))
+    elif k == 'call':
+        n = ('call', e[1], [r(a) for a in e[2]], e[3])
+    elif k == 'callptr':
+        n = ('callptr', r(e[1]), [r(a) for a in e[2]], e[3])
+    elif k == 'binop':
+        n = ('binop', e[1], r(e[2]), r(e[3]))
+    elif k == 'unop':
+        n = ('unop', e[1], r(e[2]))
+    elif k == 'cast':
+        n = ('cast', e[1], e[2], r(e[3])) + tuple(e[4:])
+    elif k == 'aggr':
+        n = ('aggr', e[1], [r(a) for a in e[2]]) + tuple(e[3:])
+    elif k == 'phi':
+        n = ('phi', e[1], [r(a) for a in e[2]]) + tuple(e[3:])
+    else:
+        n = e
+    return f(n)
 
 
 def inlinable(facts, path):
